@@ -31,7 +31,19 @@
       macros, `put_varint_with_len`, `get_varint`, `get_bytes`, `put_bytes`, `varint_len`, `varint_parse_len`);
       a `&mut OctetsMut` / `&mut Octets` parameter is threaded through (returned with the result) and is DROPPED
       when the function returns `Err` (callers discard the cursor on error);
+    * `let x = &mut place;` makes `x` an ALIAS of the place: every later use of `x` re-reads / writes the
+      place (sound because the borrow checker forbids any other access to the place while `x` is live);
+      taking the reference evaluates the place once (index bounds check);
+    * `while` loops run on explicit FUEL: the manifest gives, per loop, a Rust expression evaluated at loop
+      entry; exhausting it is the distinguished panic site `"<file>:<fn>: fuel exhausted"`, which the
+      equivalence theorems prove unreachable (so the fuel is not an assumption about the Rust code);
+    * a struct VIEW (manifest) translates only the named fields of a struct; a selected method that touches any
+      other field is rejected by the translator, so the omitted fields are provably irrelevant to it;
     * `slice.iter()` / `.iter().rev()` are lists consumed from the front (`next()` = head, keeps the tail);
+    * `std::time::Duration` is a `Nat` of nanoseconds (`Duration::MAX` as in std; comparison / copy only);
+      `std::net::SocketAddr` is the inductive `SocketAddr` whose `==` is structural; `Box<T>` is `T`;
+      `==` / `!=` on byte arrays, table-mapped types and selected structs/enums is equality of the representation
+      (their `PartialEq` impls are the derived / std structural ones);
     * `std::io::Error` is the one-point type `IoError` (external types are mapped by a table in the
       translator's manifest; their content is never inspected by translated code);
     * the translator itself (that it emits the primitive that belongs to each construct) and
@@ -135,6 +147,31 @@ where
     | 0, _, st => .val st
     | n + 1, i, st => (body i st).bind fun st' => loop n (i + 1) st'
 
+/-- how one run of a `while` body ended early: `return r` of the function, `continue`, `break`
+    (both with the current values of the loop-carried variables) -/
+inductive LoopExit (ρ σ : Type) where
+  | ret (r : ρ)
+  | cont (st : σ)
+  | brk (st : σ)
+  deriving Repr, DecidableEq
+
+/-- `while cond { body }` with explicit fuel.  `body` is `if cond { …; (fall through) } else { break }`;
+    it runs at most `fuel` times (the run whose condition fails included).  Running out of fuel is the
+    distinguished panic `site` (`"<file>:<fn>: fuel exhausted"`): the fuel expression comes from the
+    translator's manifest and the equivalence theorems prove that this site is never reached. -/
+def whileFuel {ε ρ σ : Type} (fuel : Nat) (site : String) (st : σ) (body : σ → Exec ε (LoopExit ρ σ) σ) :
+    Exec ε ρ σ :=
+  match fuel with
+  | 0 => .panic site
+  | n + 1 =>
+    match body st with
+    | .val st' => whileFuel n site st' body
+    | .ret (.cont st') => whileFuel n site st' body
+    | .ret (.brk st') => .val st'
+    | .ret (.ret r) => .ret r
+    | .err e => .err e
+    | .panic s => .panic s
+
 /-- `for x in slice.iter()` / `for x in &vec` / `for x in vec` -/
 def forEach {ε ρ σ α : Type} (l : List α) (init : σ) (body : α → σ → Exec ε ρ σ) : Exec ε ρ σ :=
   match l with
@@ -233,6 +270,18 @@ def resize (l : List α) (n : Nat) (x : α) : List α := l.take n ++ List.replic
 @[inline] def push (l : List α) (x : α) : List α := l ++ [x]
 /-- `v.extend_from_slice(s)` -/
 @[inline] def extend_from_slice (l s : List α) : List α := l ++ s
+/-- `v.insert(i, x)` (panics when `i > len`) -/
+def vec_insert (l : List α) (i : Nat) (x : α) (site : String) : Exec ε ρ (List α) :=
+  if i ≤ l.length then .val (l.take i ++ x :: l.drop i) else .panic site
+/-- `v.remove(i);` (panics when `i ≥ len`; the removed element is not used) -/
+def vec_remove (l : List α) (i : Nat) (site : String) : Exec ε ρ (List α) :=
+  if i < l.length then .val (l.eraseIdx i) else .panic site
+/-- `l.iter().enumerate()` -/
+def enumerate (l : List α) : List (Nat × α) := go 0 l
+where
+  go (i : Nat) : List α → List (Nat × α)
+    | [] => []
+    | x :: r => (i, x) :: go (i + 1) r
 /-- `o.unwrap()` -/
 def unwrap (o : Option α) (site : String) : Exec ε ρ α :=
   match o with
@@ -247,6 +296,22 @@ end lists
 structure Range where
   start : Nat
   «end» : Nat
+  deriving Repr, DecidableEq
+
+/-- `Range::contains(&x)` -/
+def Range.contains (r : Range) (x : Nat) : Bool := decide (r.start ≤ x ∧ x < r.«end»)
+/-- `Range::is_empty()` (`!(start < end)`) -/
+def Range.is_empty (r : Range) : Bool := decide (¬ r.start < r.«end»)
+
+/-- `std::time::Duration` is its number of nanoseconds; `Duration::MAX` = `u64::MAX` s + 999_999_999 ns.
+    Only comparison and copy are supported by the translator. -/
+def Duration.MAX : Nat := 2 ^ 64 * 1000000000 - 1
+
+/-- `std::net::SocketAddr`: `V4(ip, port)` / `V6(ip, port, flowinfo, scope_id)`; `==` is the derived
+    structural equality of all components -/
+inductive SocketAddr where
+  | v4 (ip : List Nat) (port : Nat)
+  | v6 (ip : List Nat) (port : Nat) (flowinfo : Nat) (scope_id : Nat)
   deriving Repr, DecidableEq
 
 /-- `octets::BufferTooShortError` -/
